@@ -286,13 +286,29 @@ class Entity(Block):
 
         for name, value in kwargs.items():
             if name in info.ports:
+                port = info.ports[name]
+
                 try:
-                    # try assignment to check if types are compatible
-                    info.ports[name] <<= value
+                    # try assignment to check if types are compatible,
+                    # in the direction the data flows
+                    if port.is_output():
+                        value <<= port
+                    else:
+                        port <<= value
                 except:
                     raise AssertionError(
                         f"assignment to port '{name}' failed (src={value}, target={info.ports[name]})"
                     )
+
+                # a port map contains no conversion function:
+                # formal and actual must have the same type
+                port_type = getattr(port, "type", None)
+                value_type = getattr(value, "type", None)
+
+                if port_type is not None and value_type is not None:
+                    assert (
+                        port_type is value_type
+                    ), f"type of port '{name}' ({port_type}) differs from the type of the connected object ({value_type}), explicit conversion required"
 
                 self._cohdl_port_definitions[name] = value
             elif name in info.generics:
